@@ -446,12 +446,12 @@ def _frames_native(py, ta, tb):
             bad.append("index %s, expected %s" % (list(d1.index)[:6], _expected_index(ta, tb)[:6]))
         if [float(x) for x in d2.index] != _expected_index(tb, ta):
             bad.append("index (swapped arguments) %s, expected %s" % (list(d2.index)[:6], _expected_index(tb, ta)[:6]))
-        if list(d1.index) == list(d2.index):
+        if list(d1.index) == list(d2.index) and len(d1):       # (no common sample time: both results are empty tables)
             s = d1.values + d2.values
             s[:, 6:] = (s[:, 6:] + 180) % 360 - 180
             if np.max(np.abs(s)) > 1e-6:
                 bad.append("not antisymmetric: %.3g" % np.max(np.abs(s)))
-        if nested and np.max(np.abs(d1.values)) > 1e-9:
+        if nested and len(d1) and np.max(np.abs(d1.values)) > 1e-9:
             bad.append("sub-sampling difference %.3g" % np.max(np.abs(d1.values)))
         for d in (d1, d2):
             ang = d[["roll", "pitch", "heading"]].values
